@@ -270,6 +270,30 @@ func (w *iterWorld) Gen(seed uint64, tier string) *Plan {
 	if tier == "thorough" {
 		phases = r.Range(1, 10)
 	}
+	if r.P(1, 6) {
+		// a larger container shaped by bulk insertion and a burst of removals (trees several levels deep
+		// after rebalancing, rings that wrapped many times, lists past their shrink thresholds)
+		p.Cfg.Dom = []int{64, 128, 256}[r.Intn(3)]
+		cfg = p.Cfg
+		s = makeSubject(cfg, false)
+		fill := genFill(r, id, 20, 200)
+		id++
+		func() {
+			defer func() { recover() }()
+			s.Step(fill, inert)
+		}()
+		p.Ops = append(p.Ops, fill)
+		rem := &Client{Role: r.PickS("remover", "sweep", "shrinker", "consumer", "popper", "churn")}
+		for i := r.Range(5, 80); i > 0; i-- {
+			op := s.GenOp(r, id, rem)
+			id++
+			func() {
+				defer func() { recover() }()
+				s.Step(op, inert)
+			}()
+			p.Ops = append(p.Ops, op)
+		}
+	}
 	for ph := 0; ph < phases; ph++ {
 		nMut := []int{0, 1, 2, 3, 5, 8, 13, 30}[r.Intn(8)]
 		for i := 0; i < nMut; i++ {
@@ -281,7 +305,22 @@ func (w *iterWorld) Gen(seed uint64, tier string) *Plan {
 			}()
 			p.Ops = append(p.Ops, op)
 		}
-		snap := s.(IterSubject).IterSnapshot()
+		// (generation steps the real container; if the library under test misbehaves here, generation
+		// stops and the plan built so far is executed, where the misbehaviour is judged)
+		var snap iterSnap
+		broken := false
+		func() {
+			defer func() {
+				if recover() != nil {
+					broken = true
+				}
+			}()
+			snap = s.(IterSubject).IterSnapshot()
+		}()
+		if broken {
+			p.Ops = append(p.Ops, Op{ID: id, N: "NewIter", X: 1, C: 1}, Op{ID: id + 1, N: "Next", X: 1, C: 1})
+			return p
+		}
 		if snap == nil {
 			continue
 		}
@@ -292,7 +331,18 @@ func (w *iterWorld) Gen(seed uint64, tier string) *Plan {
 			p.Ops = append(p.Ops, Op{ID: id, N: "NewIter", X: j + 1, C: j + 1})
 			id++
 		}
-		_, _, canRev := snap.New().Move("End", 0, 0)
+		canRev := false
+		func() {
+			defer func() {
+				if recover() != nil {
+					broken = true
+				}
+			}()
+			_, _, canRev = snap.New().Move("End", 0, 0)
+		}()
+		if broken {
+			return p
+		}
 		nMoves := r.Range(4, 60)
 		for i := 0; i < nMoves; i++ {
 			j := r.Intn(nIt)
@@ -321,7 +371,10 @@ func (w *iterWorld) Gen(seed uint64, tier string) *Plan {
 			if len(op.A) == 2 {
 				pp, kk = op.A[0], op.A[1]
 			}
-			m.apply(name, pp, kk)
+			func() {
+				defer func() { recover() }()
+				m.apply(name, pp, kk)
+			}()
 			p.Ops = append(p.Ops, op)
 		}
 	}
